@@ -20,13 +20,15 @@ META = {
             "C07_get_token_text/get_tokens/peek/remainder/delete/insert_no_panic (token-stream helpers, all positions), "
             "C07_test_desc_no_panic, C07_rune_lit_no_panic, C07_radix_probe_no_panic, C07_macro_strip_no_panic (compiler), "
             "C07_pop/drop_to_marker_no_panic, C07_stack_check_partial (operand >= 0), C07_handle_catch_no_panic (try-stack "
-            "arithmetic under any frame-pop truncations) are proved for all inputs over models in which every Go index, slice, "
+            "arithmetic under any frame-pop truncations), C07_modulo_no_panic / C07_divide_no_panic (zero test per operand kind) and "
+            "C07_get_slice_no_panic / C07_get_slice_as_array_no_panic (array slicing, byte and other arrays) are proved for all inputs over models in which every Go index, slice, "
             "make and type assertion can answer Panic; C07_test_desc_old_refuted and C07_macro_strip_old_refuted keep the two "
             "repaired defects, C07_stack_check_refuted the negative-operand case the compiler never emits. Each kernel is "
             "compared with the real function on generated inputs every run and the guarded index expressions of the modelled "
             "functions are re-read from the source (go/ast) and must be among those the model assumes. partial: every other "
             "line of the tokenizer, compiler, VM and runtime packages is only observed (token-level mutations of /repo/tests, "
-            "random bytes; test, run, REPL and server-run entry points in process under recover() with a time bound, and the "
+            "random bytes, and generated programs aimed at run-time panic surfaces: operators x kinds x boundary operands, slicing and "
+            "indexing with odd bounds, nil maps/pointers, builtins and native calls with odd arguments; test, run, REPL and server-run entry points in process under recover() with a time bound, and the "
             "ego binary's exit status/stderr); fatal runtime errors such as stack exhaustion by enormous inputs are not searched",
     "note": "Trusted: Coq kernel; hand-written kernel models (tied by the correspondence run and the site obligation); "
             "harness/C07 (in-package overlays, sitedump); props/C07.py generators; text/scanner, strconv.Unquote/UnquoteChar as oracles.",
@@ -35,7 +37,9 @@ THEOREMS = ["C07_lexer_no_panic", "C07_get_token_text_no_panic", "C07_get_tokens
             "C07_remainder_no_panic", "C07_delete_no_panic", "C07_insert_no_panic", "C07_test_desc_no_panic",
             "C07_test_desc_old_refuted", "C07_rune_lit_no_panic", "C07_radix_probe_no_panic", "C07_macro_strip_no_panic",
             "C07_macro_strip_old_refuted", "C07_pop_no_panic", "C07_drop_to_marker_no_panic", "C07_stack_check_partial",
-            "C07_stack_check_refuted", "C07_handle_catch_no_panic"]
+            "C07_stack_check_refuted", "C07_handle_catch_no_panic", "C07_modulo_no_panic", "C07_divide_no_panic",
+            "C07_modulo_hoisted_refuted", "C07_get_slice_no_panic", "C07_get_slice_as_array_no_panic",
+            "C07_get_slice_as_array_merged_refuted"]
 L = "internal/language/"
 SITE_ARGS = [L + "tokenizer/lexer.go:lexer", L + "tokenizer/line.go:GetTokenText,Remainder,GetLine",
              L + "tokenizer/tokenizer.go:GetTokens", L + "tokenizer/insert.go:Delete,Insert",
@@ -43,12 +47,15 @@ SITE_ARGS = [L + "tokenizer/lexer.go:lexer", L + "tokenizer/line.go:GetTokenText
              L + "compiler/testing.go:testDirective", L + "compiler/expr_atom.go:compileRuneExpression,convertRadixToDecimal",
              L + "compiler/macro.go:compilerMacro", L + "bytecode/catch.go:handleCatch",
              L + "bytecode/stack.go:dropToMarkerByteCode,stackCheckByteCode", L + "bytecode/context.go:PopWithoutUnwrapping,push",
-             L + "bytecode/callframe.go:callFramePop"]
+             L + "bytecode/callframe.go:callFramePop", L + "bytecode/math.go:moduloByteCode,divideByteCode",
+             L + "data/arrays.go:GetSlice,GetSliceAsArray"]
 # which modelled kernel a Go frame belongs to (a gopanic there contradicts a proved theorem)
 KERNEL_FUNCS = {"tokenizer.(*Tokenizer).lexer": "C07_lexer_no_panic", "compiler.(*Compiler).testDirective": "C07_test_desc_no_panic",
                 "compiler.(*Compiler).compileRuneExpression": "C07_rune_lit_no_panic", "compiler.(*Compiler).compilerMacro": "C07_macro_strip_no_panic",
                 "bytecode.handleCatch": "C07_handle_catch_no_panic", "bytecode.dropToMarkerByteCode": "C07_drop_to_marker_no_panic",
-                "bytecode.stackCheckByteCode": "C07_stack_check_partial", "tokenizer.(*Tokenizer).GetTokenText": "C07_get_token_text_no_panic"}
+                "bytecode.stackCheckByteCode": "C07_stack_check_partial", "tokenizer.(*Tokenizer).GetTokenText": "C07_get_token_text_no_panic",
+                "bytecode.moduloByteCode": "C07_modulo_no_panic", "bytecode.divideByteCode": "C07_divide_no_panic",
+                "data.(*Array).GetSliceAsArray": "C07_get_slice_as_array_no_panic", "data.(*Array).GetSlice": "C07_get_slice_no_panic"}
 
 REGRESSION = [  # (mode, source) — the refuted witnesses and earlier crash shapes first
     ("test", '@test ""\n'), ("test", 'x := "`"\n@test'), ("test", "@test"), ("test", '@test "\\""\n{\n}\n'),
@@ -123,6 +130,124 @@ def rbytes(rng):
     n = rng.randint(0, 120)
     alpha = b"abixz019 \n\t\"'`@{}()[]<>=+-*/.,;:!&|?\\#$%^~\x00\x7f\x80\xc3\xa9\xff"
     return bytes(rng.choice(alpha) if rng.random() < 0.9 else rng.randrange(256) for _ in range(n)).decode("latin1")
+
+
+# ------------------------------------------------------------------------------------- semantic stream: run-time panic surfaces
+INT_T = ["int", "int8", "int16", "int32", "int64", "byte", "uint16", "uint32", "uint64", "uint"]
+FLT_T = ["float32", "float64"]
+LIM = {"int": (-(1 << 63), (1 << 63) - 1), "int8": (-128, 127), "int16": (-32768, 32767), "int32": (-(1 << 31), (1 << 31) - 1),
+       "int64": (-(1 << 63), (1 << 63) - 1), "byte": (0, 255), "uint16": (0, 65535), "uint32": (0, (1 << 32) - 1),
+       "uint64": (0, (1 << 63) - 1), "uint": (0, (1 << 63) - 1)}
+SLICEABLE = [("[]byte(\"hello world\")", 11), ("[]int{1, 2, 3, 4, 5}", 5), ("\"h\u00e9llo w\u00f6rld\"", 13), ("[]string{\"a\", \"b\", \"c\"}", 3),
+             ("[]P{P{a: 1}, P{a: 2}}", 2), ("[]byte{}", 0), ("[]float64{1.5, 2.5}", 2), ("[][]int{[]int{1}, []int{}}", 2), ("[]bool{true}", 1)]
+
+
+def semantic_exprs(rng, n):
+    """n risky statements, each self-contained (declares what it uses inside its own block)."""
+    out = []
+    while len(out) < n:
+        k = rng.choice(["arith"] * 5 + ["mixed"] * 2 + ["shift", "conv", "slice", "slice", "slice", "index", "setidx", "map", "ptr", "builtin",
+                        "builtin", "native", "assert", "float", "unary", "string", "chan"])
+        if k in ("arith", "mixed"):
+            t1 = rng.choice(INT_T + FLT_T)
+            t2 = t1 if k == "arith" else rng.choice(INT_T + FLT_T)
+            lo, hi = LIM.get(t1, (-10, 10))
+            lo2, hi2 = LIM.get(t2, (-10, 10))
+            a = rng.choice([0, 1, 7, lo, hi, max(lo, -1)])
+            b = rng.choice([0, 0, 0, 1, 2, max(lo2, -1), lo2, hi2])
+            op = rng.choice(["%", "%", "/", "/", "+", "-", "*", "&", "|", "^", "<<", ">>", "==", "<"])
+            if op == "^" and not 0 <= b <= 100:             # "^" is exponentiation: a loop of b multiplications
+                b = rng.choice([0, 1, 2, 3])
+            out.append("a := %s(%d); b := %s(%d); c := a %s b; use(c)" % (t1, a, t2, b, op))
+        elif k == "shift":
+            t = rng.choice(INT_T)
+            out.append("a := %s(1); n := %s; c := a %s n; use(c)" % (t, rng.choice(["-1", "64", "63", "1000", "0", "int8(-1)", "uint64(200)"]), rng.choice(["<<", ">>"])))
+        elif k == "conv":
+            t1, t2 = rng.choice(INT_T + FLT_T), rng.choice(INT_T + FLT_T + ["string", "bool"])
+            lo, hi = LIM.get(t1, (-1000, 1000))
+            out.append("a := %s(%d); c := %s(a); use(c)" % (t1, rng.choice([lo, hi, 0, max(lo, -1)]), t2))
+        elif k == "slice":
+            v, ln = rng.choice(SLICEABLE)
+            pts = [-1, 0, 1, 2, ln - 1, ln, ln + 1, 6, 1 << 40, -(1 << 40)]
+            i, j = rng.choice(pts), rng.choice(pts)
+            form = rng.choice(["s[lo:hi]", "s[lo:hi]", "s[lo:hi]", "s[lo:]", "s[:hi]", "s[:]", "s[hi:lo]", "s[lo:hi][hi:lo]"])
+            out.append("s := %s; lo := %d; hi := %d; c := %s; use(c)" % (v, i, j, form))
+        elif k == "index":
+            v, ln = rng.choice(SLICEABLE)
+            out.append("s := %s; i := %d; c := s[i]; use(c)" % (v, rng.choice([-1, 0, ln - 1, ln, ln + 1, 1 << 40])))
+        elif k == "setidx":
+            v, ln = rng.choice(SLICEABLE[:2] + SLICEABLE[3:4])
+            out.append("s := %s; i := %d; s[i] = %s; use(s)" % (v, rng.choice([-1, 0, ln - 1, ln, 1 << 40]), rng.choice(["1", "\"x\"", "nil", "1.5", "300", "-1"])))
+        elif k == "map":
+            out.append(rng.choice([
+                "var m map[string]int; c := m[\"a\"]; use(c)", "var m map[string]int; m[\"a\"] = 1; use(m)", "var m map[string]int; delete(m, \"a\"); use(m)",
+                "m := map[string]int{\"a\": 1}; delete(m, 5); use(m)", "m := map[string]int{}; c := m[5]; use(c)", "m := map[int][]int{}; m[1][2] = 3; use(m)",
+                "m := map[string]int{}; delete(m); use(m)", "var m map[string]int; c := len(m); use(c)", "m := map[string]P{}; m[\"x\"].a = 1; use(m)",
+                "m := map[string]*P{}; c := m[\"x\"].a; use(c)", "m := map[string]int{\"a\": 1}; for k, v := range m { delete(m, k); use(v) }"]))
+        elif k == "ptr":
+            out.append(rng.choice([
+                "var p *P; c := p.a; use(c)", "var p *P; p.a = 1; use(p)", "var p *P; c := *p; use(c)", "var p *int; *p = 3; use(p)", "var p *int; c := *p + 1; use(c)",
+                "x := P{a: 1}; c := x.b; use(c)", "var i interface{}; c := i.a; use(c)", "var f func(int) int; c := f(1); use(c)",
+                "x := 5; c := x.a; use(c)", "x := 5; c := x(1); use(c)", "p := &P{a: 1}; q := &p; c := (*q).a; use(c)", "var e error; c := e.Error(); use(c)"]))
+        elif k == "builtin":
+            out.append(rng.choice([
+                "c := make([]int, -1); use(c)", "c := make([]int, 2, 1); use(c)", "n := -1; c := make([]byte, n); use(c)", "c := make(map[string]int, -1); use(c)",
+                "c := make([]int, 4611686018427387904); use(c)", "c := make(int, 3); use(c)", "c := make([]int); use(c)", "c := make(); use(c)",
+                "c := append(); use(c)", "c := append(1, 2); use(c)", "var s []int; c := append(s, \"x\"); use(c)", "s := []int{1}; c := append(s, s...); use(c)",
+                "c := append([]byte(\"ab\"), 300); use(c)", "c := append(nil, 1); use(c)", "s := []int{1, 2, 3}; delete(s, 9); use(s)", "s := []int{1, 2, 3}; delete(s, -1); use(s)",
+                "c := len(5); use(c)", "c := len(nil); use(c)", "c := len(); use(c)", "c := cap(\"s\"); use(c)", "c := new(5); use(c)", "var s []int; c := s[0:0]; use(c)",
+                "s := []int{1, 2, 3}; c := copy(s, nil); use(c)", "c := int(\"abc\"); use(c)", "c := int(\"99999999999999999999\"); use(c)", "c := byte(\"\"); use(c)",
+                "c := []byte(5); use(c)", "c := []int(\"abc\"); use(c)", "c := string([]int{-1, 1114112}); use(c)", "c := float64(\"1e999\"); use(c)", "c := bool(\"x\"); use(c)",
+                "c := index([]int{1}, 5); use(c)", "c := sizeof(); use(c)", "c := typeof(); use(c)", "c := close(5); use(c)", "panic(nil)", "panic()",
+                "c := min(); use(c)", "c := max(\"a\", 1); use(c)", "c := sum(); use(c)", "c := sum(1, \"a\", nil); use(c)", "c := members(5); use(c)"]))
+        elif k == "native":
+            out.append(rng.choice([
+                "c := strings.Repeat(\"a\", -1); use(c)", "c := strings.Repeat(\"ab\", 4611686018427387904); use(c)", "c := strings.Split(\"a\", 5); use(c)",
+                "c := strings.Index(); use(c)", "c := strings.Substring(\"abc\", 5, 1); use(c)", "c := strings.Left(\"abc\", -1); use(c)", "c := strings.Right(\"abc\", 99); use(c)",
+                "c := strings.Join(nil, 5); use(c)", "c := strings.Fields(nil); use(c)", "c := strings.Format(\"%[9]d\", 1); use(c)", "c := fmt.Sprintf(\"%[5]d %*d %!\", 1); use(c)",
+                "c := fmt.Sprintf(nil); use(c)", "c := fmt.Sprintf(\"%d\", nil, nil); use(c)", "c := fmt.Sscanf(\"1\", \"%d\"); use(c)", "c := strconv.Itoa(\"x\"); use(c)",
+                "c := strconv.Atoi(5); use(c)", "c := strconv.FormatInt(1, 99); use(c)", "c := strconv.FormatInt(1, 1); use(c)", "c := strconv.Quote(nil); use(c)",
+                "c := math.Sqrt(\"x\"); use(c)", "c := math.Abs(); use(c)", "c := int(math.Inf(1)); use(c)", "c := int64(math.NaN()); use(c)", "c := math.Mod(1, 0); use(c)",
+                "c := time.Duration(\"x\"); use(c)", "c := time.Parse(\"\", nil); use(c)", "c := time.Sleep(nil); use(c)", "c := json.Marshal(func() {}); use(c)",
+                "c := json.Unmarshal(\"{\", 5); use(c)", "c := json.Unmarshal(nil, nil); use(c)", "c := sort.Ints(nil); use(c)", "c := sort.Slice([]int{2, 1}, nil); use(c)",
+                "c := sort.Slice([]int{2, 1}, func(i, j int) bool { return i / 0 }); use(c)", "c := base64.Decode(\"!!\"); use(c)", "c := reflect.Type(); use(c)",
+                "c := reflect.Members(nil); use(c)", "c := errors.New(); use(c)", "c := errors.New(nil).Error(); use(c)", "c := uuid.Parse(\"zz\"); use(c)", "c := os.Args[99]; use(c)",
+                "c := filepath.Join(); use(c)", "c := filepath.Base(5); use(c)", "c := cipher.Decrypt(\"x\", \"y\"); use(c)", "c := strings.Builder{}; c.WriteString(5); use(c)",
+                "var b strings.Builder; c := b.String(1); use(c)", "c := bytes.Buffer{}; c.Write(nil); use(c)", "c := regexp.MustCompile(\"(\"); use(c)", "c := regexp.Compile(\"a\").FindString(5); use(c)",
+                "c := strings.Map(nil, \"abc\"); use(c)", "c := strings.NewReplacer(\"a\").Replace(\"a\"); use(c)", "c := strings.SplitN(\"a,b\", \",\", -5); use(c)", "c := strings.Title(nil); use(c)"]))
+        elif k == "assert":
+            out.append(rng.choice([
+                "var i interface{}; c := i.(int); use(c)", "var i interface{} = \"s\"; c := i.(int); use(c)", "var i interface{} = 5; c, ok := i.(string); use(c, ok)",
+                "x := 5; c := x.(int); use(c)", "var i interface{} = []int{1}; c := i.([]string); use(c)", "var i interface{} = P{a: 1}; c := i.(*P); use(c)",
+                "var i interface{}; switch v := i.(type) { case int: use(v) }", "var e error; c := e.(P); use(c)"]))
+        elif k == "float":
+            t = rng.choice(FLT_T)
+            out.append("a := %s(%s); b := %s(%s); c := a %s b; d := int(c); use(c, d)" % (t, rng.choice(["0", "1", "-1", "1e38", "1e308"]), t, rng.choice(["0", "0", "-0.0", "1e-45", "2"]),
+                                                                                       rng.choice(["/", "/", "%", "*", "+"])))
+        elif k == "unary":
+            t = rng.choice(INT_T + FLT_T + ["bool", "string"])
+            val = {"bool": "true", "string": "\"s\""}.get(t, str(LIM.get(t, (-1, 1))[0]))
+            out.append("a := %s(%s); c := %sa; use(c)" % (t, val, rng.choice(["-", "!", "&", "-"])))
+        elif k == "string":
+            out.append(rng.choice([
+                "s := \"abc\"; c := s[5:]; use(c)", "s := \"abc\"; c := s[2:1]; use(c)", "s := \"abc\"; c := s[-1]; use(c)", "s := \"\"; c := s[0]; use(c)",
+                "s := \"h\u00e9\"; c := s[1:2]; use(c)", "s := \"abc\"; s[0] = 'x'; use(s)", "s := \"abc\"; c := s * 3; use(c)", "s := \"abc\"; c := s - \"b\"; use(c)",
+                "s := \"abc\"; c := s / \"b\"; use(c)", "s := \"abc\"; c := s % 2; use(c)", "s := \"abc\"; c := s << 1; use(c)", "s := \"abc\"; c := s * -1; use(c)",
+                "c := \"a\" + nil; use(c)", "c := nil + nil; use(c)", "c := []int{1} + []int{2}; use(c)", "c := []int{1} + 5; use(c)", "c := []int{1, 2} - 2; use(c)",
+                "c := P{a: 1} + P{a: 2}; use(c)", "c := true + true; use(c)", "c := true / false; use(c)", "c := 'a' % '\\x00'; use(c)", "c := 5 / nil; use(c)"]))
+        else:
+            out.append(rng.choice(["var i interface{} = 5; c := i + 1; use(c)", "var s []int; s[0] = 1; use(s)", "var s []int; c := s[0]; use(c)"]))
+    return out
+
+
+def semantic_program(rng, mode, nexpr):
+    """One program of nexpr risky blocks, each inside its own try/catch so that an Ego error does not hide the next block."""
+    blocks = "".join("    try {\n        %s\n    } catch (e) {\n        n = n + 1\n    }\n" % e.replace("; ", "\n        ") for e in semantic_exprs(rng, nexpr))
+    head = "type P struct {\n    a int\n}\n\nfunc use(v ...interface{}) {\n}\n\n"
+    if mode == "test":
+        return head + "@test \"semantic\"\n{\n    n := 0\n" + blocks + "}\n"
+    return head + "func main() {\n    n := 0\n" + blocks + "    fmt.Println(n)\n}\n"
+
 
 
 def hx(s):
@@ -229,6 +354,11 @@ Definition popok (r : res (option (val * vm))) (cls k s : Z) : bool :=
 Definition dropok (r : res drop_out) (cls s : Z) : bool :=
   match r with Panic => cls =? 0 | Ok DThrow => cls =? 1 | Ok (DDone m) => (cls =? 2) && (sp m =? s) end.
 Definition chkok (r : res bool) (cls : Z) : bool := match r with Panic => cls =? 0 | Ok false => cls =? 1 | Ok true => cls =? 2 end.
+Definition arithok (r : res arith_out) (cls : Z) : bool :=
+  match r with Panic => false | Ok ADivZero => cls =? 0 | Ok ATypeErr => cls =? 1 | Ok AValue => cls =? 2 end.
+Definition sliceok (r : res (option (list Z))) (ln fv : Z) : bool :=
+  match r with Panic => false | Ok None => ln =? -1
+  | Ok (Some l) => (len l =? ln) && (match l with [] => -1 | x :: _ => x end =? fv) end.
 Fixpoint falses (i : nat) (l : list bool) : list nat := match l with [] => [] | b :: r => (if b then [] else [i]) ++ falses (S i) r end.
 """
 
@@ -375,6 +505,14 @@ def run(ck):
         for tp in range(-1, 6):
             M.append((s, tp))
     vmc = gen_vm(rng, 300 if quick else 3000)
+    KIN = ["byte", "int8", "int16", "uint16", "int32", "uint32", "int", "uint", "int64", "uint64", "float32", "float64", "complex64", "complex128", "bool", "string"]
+    ops = [(o, k, 7, k, 0, 0) for o in ("mod", "div") for k in KIN]          # every kind against its own zero first
+    for _ in range(150 if quick else 1500):
+        ops.append((rng.choice(["mod", "div"]), rng.choice(KIN), rng.choice([0, 7, -1, 100]), rng.choice(KIN), rng.choice([0, 0, 1, 2, 7]), rng.randint(0, 1)))
+    arrs = [(1, 7, 6, 2), (1, 7, 2, 6), (0, 5, 4, 1), (1, 11, 11, 0), (1, 0, 0, 0), (0, 0, 1, 0)]
+    for _ in range(150 if quick else 1500):
+        n = rng.randint(0, 7)
+        arrs.append((rng.randint(0, 1), n, rng.randint(-2, n + 2), rng.randint(-2, n + 2)))
     tin, tout = os.path.join(ck.work, "tok_in.txt"), os.path.join(ck.work, "tok_out.txt")
     with open(tin, "w") as f:
         f.write("T\n")
@@ -395,6 +533,10 @@ def run(ck):
     with open(bin_, "w") as f:
         for op, sp, fp, arg, th, st in vmc:
             f.write("%s %d %d %s %d %s\n" % (op, sp, fp, arg, th, ",".join(st) or "-"))
+        for c in ops:
+            f.write("O %s %s %d %s %d %d\n" % c)
+        for c in arrs:
+            f.write("A %d %d %d %d\n" % c)
     rc2, log2 = vf.run_bin(built["bc"][1], "^TestVerifC07BC$", {"VERIF_IN": bin_, "VERIF_OUT": bout})
     if rc != 0 or rc2 != 0:
         ck.violation("harness-run", "kernel harness failed:\n" + (log if rc else log2)[-1500:], replay={"log": (log + log2)[-3000:]}, found_input=False)
@@ -503,12 +645,47 @@ def run(ck):
         if f[1] == "ok":
             nontriv.add("V%s" % (c,))
         labels.append(lab)
+    KCOQ = {"byte": "KByte", "int8": "KInt8", "int16": "KInt16", "uint16": "KUint16", "int32": "KInt32", "uint32": "KUint32", "int": "KInt",
+            "uint": "KUint", "int64": "KInt64", "uint64": "KUint64", "float32": "KFloat32", "float64": "KFloat64", "complex64": "KComplex64",
+            "complex128": "KComplex128", "other": "KOtherKind"}
+    for c, f in zip(ops, bl[len(vmc):len(vmc) + len(ops)]):
+        lab = ("modulo/divide", {"kernel": "arith", "case": list(c)})
+        if f[1] == "panic":
+            kernel_panics.append(("moduloByteCode" if c[0] == "mod" else "divideByteCode", lab[1]))
+            continue
+        if f[2] == "-":
+            continue                          # data.Normalize refused the pair: nothing reaches the switch
+        if f[1] != "typeerr":
+            nontriv.add("O%s" % (c,))
+        cls = {"divzero": 0, "typeerr": 1, "ok": 2}[f[1]]
+        # the divisor is zero after normalisation exactly when it was zero before (small values only)
+        call = ("modulo_op true %s %s %d" % (KCOQ[f[2]], KCOQ[f[2]], c[4]) if c[0] == "mod" else
+                "divide_op %s %s %d %s" % (KCOQ[f[2]], KCOQ[f[2]], c[4], "true" if c[5] else "false"))
+        exprs.append("arithok (%s) %d" % (call, cls))
+        labels.append(lab)
+    for c, f in zip(arrs, bl[len(vmc) + len(ops):]):
+        lab = ("GetSliceAsArray", {"kernel": "array-slice", "case": list(c)})
+        if "panic" in f[1:3]:
+            kernel_panics.append(("GetSliceAsArray/GetSlice", lab[1]))
+            continue
+        if f[1].startswith("ok") and not f[1].startswith("ok:0"):
+            nontriv.add("A%s" % (c,))
+
+        def enc(x):
+            if x == "err":
+                return "(-1)", "(-1)"
+            _, ln, fv = x.split(":")
+            return zc(int(ln)), zc(int(fv))
+        arr = "{| aisbyte := %s; abytes := %s; adata := %s |}" % (("true", "zs %d" % c[1], "[]") if c[0] else ("false", "[]", "zs %d" % c[1]))
+        exprs.append("sliceok (get_slice_as_array false %s %s %s) %s %s && sliceok (get_slice %s %s %s) %s %s" % (
+            (arr, zc(c[2]), zc(c[3])) + enc(f[1]) + (arr, zc(c[2]), zc(c[3])) + enc(f[2])))
+        labels.append(lab)
     for name, rp in kernel_panics:
         ck.violation("kernel-gopanic:" + name, "the real %s panicked on a generated input although the model is proved panic free" % name,
                      replay=rp)
     ck.cov["evaluations"] = len(exprs)
     ck.cov["input_distribution"] = {"lexer_lines": len(lex_src), "lexer_lines_skipped_scan_differs": lex_skipped, "GetTokenText/GetTokens": len(G),
-                                    "Peek": len(K), "Delete": len(D), "Insert": len(I), "Remainder": len(M), "vm_stack_cases": len(vmc),
+                                    "Peek": len(K), "Delete": len(D), "Insert": len(I), "Remainder": len(M), "vm_stack_cases": len(vmc), "modulo/divide operand pairs": len(ops), "array slice cases": len(arrs),
                                     "crush_table_entries": len(table)}
     for lb in labels[:2] + labels[len(lex_src):len(lex_src) + 1]:
         ck.sample(lb[1])
@@ -550,7 +727,10 @@ def run(ck):
         cases = [(replay["mode"], replay["source"])]
     else:
         cases += REGRESSION
-        nfiles, nmut, nsoup, nrand = (12, 170, 40, 40) if quick else (len(texts), 3000, 600, 600)
+        nfiles, nmut, nsoup, nrand = (10, 130, 30, 30) if quick else (len(texts), 3000, 600, 600)
+        nsem = 40 if quick else 600                      # programs of 12 risky blocks each
+        for i in range(nsem):
+            cases.append(("run" if i % 2 else "test", semantic_program(rng, "run" if i % 2 else "test", 12)))
         pick = rng.sample(texts, min(nfiles, len(texts)))
         cases += [("test", t) for _, t in pick]
         for _ in range(nmut):
@@ -579,9 +759,11 @@ def run(ck):
             fr = m.group(1) if m else "unknown"
             ck.violation("fatal:" + fr, "the process died while running a case (%s entry point):\n%s" % (cases[i][0], log[-600:]),
                          replay={"mode": cases[i][0], "source": cases[i][1]})
+    sem_ran = sum(1 for i, (c, d) in results.items() if cases[i][1].startswith("type P struct") and d == "run")
     ck.cov["evaluations"] += len(results)
+    ck.cov["input_distribution"]["semantic_programs_compiled_and_ran"] = sem_ran
     ck.cov["input_distribution"].update({"pipeline_cases_planned": len(cases), "pipeline_cases_done": len(results),
-                                         "pipeline_outcomes": cls, "process_deaths_not_fatal (os.Exit etc.)": len(deaths)})
+                                         "pipeline_outcomes": cls, "semantic_programs (12 risky blocks each)": 0 if replay else nsem, "process_deaths_not_fatal (os.Exit etc.)": len(deaths)})
     ck.cov["distinct_nontrivial"] = len(nontriv) + len(ran_ok)
     ck.sample({"mode": cases[0][0], "source": cases[0][1], "outcome": results.get(0)})
 
@@ -592,7 +774,8 @@ def run(ck):
         os.makedirs(d, exist_ok=True)
         env = vf.ego_env(ck.work)
         todo = [("test", '@test ""\n'), ("test", 'x := "`"\n@test'), ("run", "func main() {\n x := '\n}\n"), ("run", rbytes(rng)), ("test", soup(rng))]
-        todo += [(m, s) for (m, s) in (cases[len(REGRESSION) + 12:len(REGRESSION) + 12 + (10 if quick else 150)])]
+        todo += [(m, s) for (m, s) in (cases[len(REGRESSION):len(REGRESSION) + (8 if quick else 100)])]          # semantic programs
+        todo += [(m, s) for (m, s) in (cases[len(REGRESSION) + nsem + nfiles:len(REGRESSION) + nsem + nfiles + (6 if quick else 100)])]   # mutants
         nb = 0
         for j, (m, s) in enumerate(todo):
             pth = os.path.join(d, "b%d.ego" % j)
